@@ -105,8 +105,7 @@ contract("user:cleanup", trusted=True, pos_params=["callee"], modifies=["G_cl_n"
              "the cleanup lists (A-user)")
 contract("user:on_cleanup_error", trusted=True, pos_params=["context", "cleanup_func", "exception"], pure=True,
          doc="cleanup error handler (default: print_cleanup_error): does not raise (A-user)")
-contract("lib:sys.exc_info", trusted=True, pos_params=[], pure=True, result="any", doc="sys.exc_info() (A-lib)")
-contract("lib:six.reraise", trusted=True, pos_params=[], vararg="args", pure=True,
+contract("abs:six.reraise.c13", trusted=True, pos_params=[], vararg="args", pure=True,
          raises=[Raises("Exception", when="True")], doc="six.reraise(*exc_info): re-raises the stored exception (A-lib)")
 FUNCS = "as_list(dict_value(self._stack[0], '@cleanups'), 'any')"
 K0 = "old(G_cl_n)"
@@ -116,7 +115,7 @@ contract(R + "Context._do_cleanups", props=P, params={"self": "ref:Context"}, se
                    "root-counts-cleanup-errors": "has_key(self._root, 'cleanup_errors') and has_kind(dict_value(self._root, 'cleanup_errors'), 'int')",
                    "cleanup-list-is-not-a-scope-or-root": "self._root is not self._stack[0]"},
          callsites={"cleanup_func": "user:cleanup", "on_cleanup_error": "user:on_cleanup_error",
-                    "sys.exc_info": "lib:sys.exc_info", "six.reraise": "lib:six.reraise"},
+                    "six.reraise": "abs:six.reraise.c13"},
          exprs={"getattr(self, 'on_cleanup_error', self.print_cleanup_error)": ("fresh", "any")},
          modifies=["G_cl_n", "G_cl_fn", "dict(self._root)"],
          raises=[Raises("Exception",
